@@ -1,4 +1,5 @@
 import Hls.Model.Obs
+import Hls.Model.Script
 /-!
 # `hlsdriver` — the model behind the line protocol of PROTOCOL.md
 -/
@@ -166,8 +167,39 @@ def parseBits8 (s : Str) : Option Nat :=
 def cmpLine (oa ob : String) (e : Bool) (c : Ordering) (h : Bool) : String :=
   "ok " ++ oa ++ " " ++ ob ++ " E:" ++ Obs.bool e ++ " C:" ++ ordStr c ++ " H:" ++ Obs.bool h
 
+/-- `build_tag:<T>`: run the token script, build, answer like `tag:` -/
+def buildTagOp {β α} (tok : β → Str → Str → Option β) (init : β) (build : β → Res α)
+    (parse : Str → Res α) (obs : α → String) (shw : α → Str) (ver : α → Nat) (payload : Str) : String :=
+  if payload.contains '\n' then "bad-op" else
+  match foldTokens tok init payload with
+  | none => "bad-op"
+  | some b => typeOp (fun _ => build b) obs shw (some ver) true payload |> fun line =>
+      -- the R field must re-parse the WRITTEN text with the text parser, not rebuild
+      match build b with
+      | .ok v =>
+        let o := obs v
+        let t := shw v
+        "ok " ++ o ++ " T:" ++ hx t ++ " V:" ++ toString (ver v) ++ " " ++ rField parse obs o t
+      | _ => line
+
 def handle (op : String) (payload : Str) (args : List String) : String :=
-  if op.startsWith "type:" then (typeDispatch (op.drop 5).toString payload).getD "bad-op"
+  if op.startsWith "build_tag:" then
+    match (op.drop 10).toString with
+    | "ExtXMedia" => buildTagOp mediaTagToken {} ExtXMediaBuilder.build ExtXMedia.parse Obs.xmedia ExtXMedia.show ExtXMedia.requiredVersion payload
+    | "ExtXDateRange" => buildTagOp dateRangeToken {} ExtXDateRangeBuilder.build ExtXDateRange.parse Obs.daterange ExtXDateRange.show (fun _ => 1) payload
+    | "ExtXSessionData" => buildTagOp sessionDataToken {} ExtXSessionDataBuilder.build ExtXSessionData.parse Obs.sessiondata ExtXSessionData.show (fun _ => 1) payload
+    | "StreamData" => buildTagOp streamDataToken {} StreamDataBuilder.build StreamData.parse Obs.streamdata StreamData.show (fun _ => 1) payload
+    | "DecryptionKey" => buildTagOp decryptionKeyToken {} DecryptionKeyBuilder.build DecryptionKey.parse Obs.deckey DecryptionKey.show DecryptionKey.requiredVersion payload
+    | _ => "bad-op"
+  else if op == "build_media" then
+    match buildMediaScript payload with
+    | some r => mediaOp r true
+    | none => "bad-op"
+  else if op == "build_master" then
+    match buildMasterScript payload with
+    | some r => masterOp r true
+    | none => "bad-op"
+  else if op.startsWith "type:" then (typeDispatch (op.drop 5).toString payload).getD "bad-op"
   else if op.startsWith "tag:" then (tagDispatch (op.drop 4).toString payload).getD "bad-op"
   else if op.startsWith "owned:" then
     let what := (op.drop 6).toString
